@@ -105,6 +105,8 @@ pub struct Tape {
     pub logging: bool,
     /// ids of key/value objects dropped by the harness itself (they were returned to the caller)
     pub returned: Vec<String>,
+    /// layouts refused by the allocator since the last reset of this list
+    pub refused: Vec<(usize, usize)>,
 }
 
 thread_local! {
@@ -278,6 +280,7 @@ unsafe impl Allocator for TapeAlloc {
             !fail
         });
         if !ok {
+            with(|t| t.refused.push((layout.size(), layout.align())));
             return Err(AllocError);
         }
         if layout.size() == 0 || !layout.align().is_power_of_two() {
